@@ -323,6 +323,12 @@ func runC03(c *core.Ctx) {
 	runC03R3(c, pr)
 	runC03R4(c, pr, r)
 	runC03R5(c, pr)
+	// Channel.Write reaches the pipeline whenever the channel is open: its only early exit is the closed test
+	// (shared with C11-R1: the entry observes the closed flag, nothing else, before firing the event)
+	c.Rule("R6", "Channel.Write's early exit is the closed-flag test only (shared with C11-R1)", 1)
+	importObligations(c, runC11, "R6", func(o *core.Obligation) bool {
+		return o.Rule == "R1" && strings.Contains(o.Key, "entry/") && strings.Contains(o.Key, ").Write")
+	})
 }
 
 // ---------- R1 ----------
